@@ -357,8 +357,71 @@ def retMm (args : List String) : String :=
     | none => "bad-op"
   | _ => "bad-op"
 
+/-! suite "retmmc": `mmc <n> <victims> <na> <nr> <sched>` — metricmeta.json holds the entries 1..n; one retention pass
+(RemoveMetricsSegments with the victim keys), rotations a0..a<na-1> (AddMetricsMetaEntry of key 101+i), readers
+r0..r<nr-1> (ReadMetricsMeta); sched ::= - | t,t,…  t ::= p | a<i> | r<j>: the thread that takes its next step (a step that
+would wait for the lock is not taken: `B`).  Afterwards every thread is run to its end (round robin p, a…, r…).
+→ tr=<t:label | t:B,…> file=<keys in file order> dirs=<sorted keys whose segment directory exists> rd=<what reader j returned, sorted>/… -/
+def parseMmcTid (na nr : Nat) (t : String) : Option MmConc.Tid :=
+  if t = "p" then some .pass else
+  match t.toList with
+  | 'a' :: r => (natLt (String.ofList r) na).map MmConc.Tid.app
+  | 'r' :: r => (natLt (String.ofList r) nr).map MmConc.Tid.rd
+  | _ => none
+
+def showMmcTid : MmConc.Tid → String
+  | .pass => "p"
+  | .app i => s!"a{i}"
+  | .rd j => s!"r{j}"
+
+def mmcSortNat (l : List Nat) : List Nat := (l.toArray.qsort (· < ·)).toList
+
+def retMmc (args : List String) : String :=
+  match args with
+  | [ns, vs, nas, nrs, ss] =>
+    match natLt ns 7, natLt nas 4, natLt nrs 3 with
+    | some n, some na, some nr =>
+      let victims := if vs = "-" then some [] else (vs.splitOn ",").mapM (fun t => natLt t 1000)
+      let sched := if ss = "-" then some [] else (ss.splitOn ",").mapM (parseMmcTid na nr)
+      match victims, sched with
+      | some victims, some sched =>
+        if n = 0 || sched.length > 60 then "bad-op" else
+        let victim := fun k => victims.contains k
+        let key := fun i => 101 + i
+        let init := (List.range n).map (· + 1)
+        let s0 : MmConc.St := { file := init, dirs := init ++ (List.range na).map key }
+        let rr := [MmConc.Tid.pass] ++ (List.range na).map MmConc.Tid.app ++ (List.range nr).map MmConc.Tid.rd
+        let go := fun (showB : Bool) (acc : MmConc.St × List String) (t : MmConc.Tid) =>
+          let (s', ev) := MmConc.step victim key acc.1 t
+          match ev with
+          | .exec l => (s', s!"{showMmcTid t}:{l}" :: acc.2)
+          | .blocked => (s', if showB then s!"{showMmcTid t}:B" :: acc.2 else acc.2)
+          | .noop => (s', acc.2)
+        let a1 := sched.foldl (go true) (s0, [])
+        let a2 := ((List.replicate 24 rr).flatten).foldl (go false) a1
+        let s := a2.1
+        let tr := a2.2.reverse
+        let rds := (List.range nr).map (fun j => match s.rres j with
+          | none => "?"
+          | some l => if l.isEmpty then "e" else showUids (mmcSortNat l))
+        s!"tr={if tr.isEmpty then "-" else String.intercalate "," tr} file={showUids s.file} dirs={showUids (mmcSortNat s.dirs)} rd={if rds.isEmpty then "-" else String.intercalate "/" rds}"
+      | _, _ => "bad-op"
+    | _, _, _ => "bad-op"
+  | _ => "bad-op"
+
+/-! suite "retsbd": `sbd <string>` (no blanks) → `ok <directory>` | `err`   (utils.GetSegBaseDirFromFilename) -/
+def retSbd (args : List String) : String :=
+  match args with
+  | [s] =>
+    match SegDir.segBaseDir s.toList with
+    | some d => s!"ok {String.ofList d}"
+    | none => "err"
+  | _ => "bad-op"
+
 def handle (cmd : String) (args : List String) : Option String :=
   match cmd, args with
+  | "mmc", r => some (retMmc r)
+  | "sbd", r => some (retSbd r)
   | "ret", "time" :: r => some (retTime r)
   | "ret", "vol" :: r => some (retVol r)
   | "ret", "int" :: r => some (retInt r)
